@@ -1262,8 +1262,10 @@ def first_diff(a: bytes, b: bytes):
 
 def plain_keepalive(case):
     rq, rs = case["req"], case["resp"]
-    if rq.get("version") == "1.0" or wants_close(case):
+    if wants_close(case):
         return False
+    if rq.get("version") == "1.0" and resp_without_length(case):
+        return False          # close-delimited body: the connection must end (checked by the hang / agreement oracle)
     if rq["method"].upper() == "HEAD":
         return False          # a HEAD response may carry no length at all: the client then closes (both ends agree)
     if rs.get("read", "read") == "none" and (rq.get("body") or {"kind": "none"})["kind"] != "none":
@@ -1287,41 +1289,8 @@ def _is_head_stream(case):
             and bool(rs.get("eof_with_data")) and bool(ps) and ps[-1] > 0)
 
 
-def _sig_h10_close_delimited(case, params):
-    rq = case.get("req") or {}
-    return (case.get("viol") == "hang" and rq.get("version") == "1.0" and not wants_close(case)
-            and resp_without_length(case) and not rq.get("expect100"))
-
-
-def _effective_coding(case):
-    rq, rs = case.get("req") or {}, case.get("resp") or {}
-    comp = rs.get("compression")
-    if comp == "auto":
-        ae = None
-        for k, v in rq.get("headers", []):
-            if k.lower() == "accept-encoding":
-                ae = v
-        if ae is None and rq.get("skip_auto") and any(h.lower() == "accept-encoding" for h in rq["skip_auto"]):
-            return None
-        if ae is not None and "deflate" not in ae.lower() and "gzip" not in ae.lower():
-            return None
-        return "deflate"
-    return comp if comp not in (None, "identity") else None
-
-
-DESYNC = ("hang", "stall", "reuse", "second-response", "second-exception", "second-hang", "server-error-log",
-          "keepalive-disagree", "not-quiescent")
-
-
-def _sig_h10_expect(case, params):
-    rq = case.get("req") or {}
-    return case.get("viol") in DESYNC and rq.get("version") == "1.0" and bool(rq.get("expect100"))
-
-
-SIGNATURES = {
-    "h10_keepalive_close_delimited_hang": _sig_h10_close_delimited,
-    "h10_expect_continue": _sig_h10_expect,
-}
+# every finding this check has made is repaired in /repo: no signature suppresses anything
+SIGNATURES: dict = {}
 
 
 # ------------------------------------------------------------------------------------------------
